@@ -464,3 +464,29 @@ def atoms_of_cond(c: Cond):
     if t[0] in ("not", "all", "any"):
         return atoms_of_cond(t[1])
     return []
+
+
+def flatten_records(bound):
+    """a small record (NamedTuple) that bundles arguments counts as its named fields: {param: value} plus {field: item}"""
+    out = dict(bound)
+    for k_, v_ in list(bound.items()):
+        if isinstance(v_, TupleV) and getattr(v_, "names", None):
+            for nm_, it_ in zip(v_.names, v_.items):
+                out.setdefault(nm_, it_)
+    return out
+
+
+def name_result_record(ex, func, tup):
+    """If the summarised function returns a NamedTuple record (`return _Result(a, b, ...)`), give the summary's result
+    tuple the record's field names, so that callers may read it by field as well as by position."""
+    import ast as _ast
+
+    for n in _ast.walk(func.node):
+        if isinstance(n, _ast.Return) and isinstance(n.value, _ast.Call) and isinstance(n.value.func, (_ast.Name, _ast.Attribute)):
+            r = ex.P.resolve_expr(func.module, n.value.func)
+            fields = ex._record_fields(r) if r is not None and r.__class__.__name__ == "ClassInfo" else None
+            if fields and len(fields) == len(tup.items):
+                tup.names = [f_ for f_, _ in fields]
+                tup.record = r
+                break
+    return tup
